@@ -9,6 +9,7 @@ from __future__ import annotations
 import z3
 from . import ty
 
+FULL_CNT = False
 I = z3.IntSort()
 R = z3.RealSort()
 B = z3.BoolSort()
@@ -71,7 +72,7 @@ class SeqOps:
         def fa(vs, body, *pats):
             # several pats = ONE multi-pattern (all must match)
             pat = pats[0] if len(pats) == 1 else z3.MultiPattern(*pats)
-            ax.append(A(vs, body, patterns=[pat]))
+            ax.append(A(vs, body, patterns=[pat], qid=f"seq_{self.E}_{len(ax)}"))
 
         # length
         fa([s], Len(s) >= 0, Len(s))
@@ -140,7 +141,7 @@ class SeqOps:
             fa([s, m, x, v], z3.Implies(z3.Not(Mem(s, x)), Sum(s, z3.Store(m, x, v)) == Sum(s, m)), Sum(s, z3.Store(m, x, v)))
             fa([s, m, x, v], z3.Implies(z3.And(Mem(s, x), NoDup(s)), Sum(s, z3.Store(m, x, v)) == Sum(s, m) - m[x] + v),
                Sum(s, z3.Store(m, x, v)))
-            fa([s, m, n], z3.Implies(z3.And(1 <= n, n <= Len(s)), Sum(Drop(s, n), m) == Sum(Drop(s, n - 1), m) - m[At(s, n - 1)]),
+            fa([s, m, n], z3.Implies(z3.And(0 <= n, n <= Len(s)), Sum(Drop(s, n), m) == Sum(s, m) - Sum(Take(s, n), m)),
                Sum(Drop(s, n), m))
         for key, (Cnt, Wit) in self.cnt_fns.items():
             vs = Cnt.domain(2)
@@ -154,11 +155,12 @@ class SeqOps:
             fa([s, m, x, w, v], z3.Implies(z3.And(Mem(s, x), NoDup(s)),
                                            Cnt(s, z3.Store(m, x, w), v) == Cnt(s, m, v) - b2i(m[x] == v) + b2i(w == v)),
                Cnt(s, z3.Store(m, x, w), v))
-            # all-equal <=> count is the length
-            fa([s, m, v, x], z3.Implies(z3.And(Cnt(s, m, v) == Len(s), Mem(s, x)), m[x] == v), Cnt(s, m, v), Mem(s, x))
-            fa([s, m, v], z3.Implies(Cnt(s, m, v) < Len(s), z3.And(Mem(s, Wit(s, m, v)), m[Wit(s, m, v)] != v)), Cnt(s, m, v))
-            # a member with the value forces the count to be positive
-            fa([s, m, v, x], z3.Implies(z3.And(Mem(s, x), m[x] == v), Cnt(s, m, v) >= 1), Cnt(s, m, v), Mem(s, x))
+            if FULL_CNT:
+                # all-equal <=> count is the length   (cross-product triggers: only enabled where needed, e.g. C06)
+                fa([s, m, v, x], z3.Implies(z3.And(Cnt(s, m, v) == Len(s), Mem(s, x)), m[x] == v), Cnt(s, m, v), Mem(s, x))
+                fa([s, m, v], z3.Implies(Cnt(s, m, v) < Len(s), z3.And(Mem(s, Wit(s, m, v)), m[Wit(s, m, v)] != v)), Cnt(s, m, v))
+                # a member with the value forces the count to be positive
+                fa([s, m, v, x], z3.Implies(z3.And(Mem(s, x), m[x] == v), Cnt(s, m, v) >= 1), Cnt(s, m, v), Mem(s, x))
         self._axioms = ax
         return ax
 
